@@ -351,6 +351,10 @@ func c12GenValue(r *rand.Rand, p c12Pred, col string) any {
 	if k < 55 && len(on) > 0 {
 		c := on[r.Intn(len(on))]
 		if c.IsStr {
+			if c.Str == "" && r.Intn(3) == 0 {
+				// the blank-text test on a row whose column holds a number
+				return pick(r, []any{0, 0.0, int64(0), 1, -1.5})
+			}
 			switch r.Intn(8) {
 			case 6: // what a careless normalisation of the predicate text would turn the literal into
 				return strings.NewReplacer("(", " ", ")", " ").Replace(c.Str)
